@@ -158,7 +158,7 @@ def size_projects(rng, quick, i0):
             mx = max(roots, key=lambda f: f["name"])
             ml = max(loc, key=lambda f: f["name"])
             if mx["name"] > ml["name"]:
-                pk = next(pk for pk in proj["packages"] if mx in pk["funcs"])
+                pk = next(pk for pk in proj["packages"] if any(f is mx for f in pk["funcs"]))
                 a, b = mx["name"], ml["name"]
                 ren = {a: b}
                 mx["name"], ml["name"] = b, a
@@ -176,7 +176,7 @@ def extreme_projects(rng, quick, i0):
     """SIZE extremes of imported packages: (1) hundreds of source files with long names - the file
     list `go list` prints is longer than 64 KiB (thorough: 1 MiB) - with targets in the file that
     sorts first, in files that sort last, in a file with a very long name; (2) one file with a
-    thousand targets (thorough: 4000), a target with a very long name, a very long doc comment, a
+    500 targets (thorough: 2000), a target with a very long name, a very long doc comment, a
     package at the end of a deep import path.  Every target must be exposed."""
     out = []
     # (1) many files
@@ -194,7 +194,7 @@ def extreme_projects(rng, quick, i0):
     out.append(G.rename_until_clash_free(rng, proj))
     # (2) many targets, long names, long docs, deep path
     proj = G.assemble(rng, "x%04d" % (i0 + 1), "parent", [G.gen_spec(rng, 0, "single_trail", 0, "root"), G.gen_spec(rng, 1, "group_trail", 2, "alias")], 2, nlocal=1)
-    n = 500 if quick else 4000
+    n = 500 if quick else 2000
     bulk = {"dir": "imp/p0", "pkg": "p0", "funcs": [{"name": "Bulk%04d" % k, "sig": "plain" if k % 3 else "err"} for k in range(n)],
             "ns": [{"name": "Wide", "methods": [{"name": "M%03d" % k, "sig": "plain"} for k in range(50)]}], "default": "Bulk0001", "aliases": {"zzbulk": "Bulk0002"},
             "unexported": [], "nontarget": False, "nested": None, "shape": "bulk"}
@@ -344,7 +344,8 @@ def run_project(ctx, mage, proj, outside):
     penv = proj.get("env") or {}      # the environment mage is started in (GOOS/GOARCH of another platform ...)
     fast = dict(FAST, **penv)
     obs["env"] = penv
-    r = mage.run(cwd, pre + ["-l"], env=penv)
+    tmo = 1200 if proj.get("extreme") else 180
+    r = mage.run(cwd, pre + ["-l"], env=penv, timeout=tmo)
     obs["list_rc"] = r["rc"]
     if r["rc"] != 0:
         obs["error"] = projlib.stderr_class(r["err"])
@@ -356,7 +357,7 @@ def run_project(ctx, mage, proj, outside):
         obs["default_mark"] = lst["default"]
         obs["warnings"] = len(re.findall(r"warning:", r["err"]))
         if names:
-            r2 = mage.run(cwd, pre + names, env=fast)
+            r2 = mage.run(cwd, pre + names, env=fast, timeout=tmo)
             obs["run_rc"] = r2["rc"]
             obs["calls"] = [c[0] for c in projlib.calls(r2["out"])]
             if r2["rc"] != 0:
